@@ -23,7 +23,7 @@ var RespFields = []Field{
 	{"upgrade", []string{"canon", "absent", "lower", "upper", "mixed", "padded", "case", "wrong", "dup-same", "triple-same", "dup-conflict"}},
 	{"connection", []string{"canon", "absent", "lower", "upper", "mixed", "padded", "case", "wrong", "dup-same", "triple-same", "dup-conflict", "list"}},
 	{"accept", []string{"canon", "absent", "lower", "upper", "mixed", "padded", "otherkey", "27", "29", "case", "dup-same", "triple-same", "dup-conflict", "lastchar", "firstchar", "foldname"}},
-	{"protocol", []string{"absent", "a", "b", "c", "empty"}},
+	{"protocol", []string{"absent", "a", "b", "c", "empty", "b, c", "b+c", "c+b"}},
 	{"extensions", []string{"absent", "x", "x;p=1", "z", "malformed", "x, z", "x, y", "two-headers", "x;p=1;r=22, y", "x; a01=1; a02=2; a03=3; a04=4; a05=5; a06=6; a07=7; a08=8; a09=9; a10=10; a11=11; a12=12, y"}},
 	{"extra", []string{"none", "before", "between", "after", "kelvin", "long-70000", "long-300000"}},
 	{"order", []string{"canonical", "reversed", "rotated"}},
@@ -109,6 +109,14 @@ func (r Resp) Build(key string, B int) (headLen int, data []byte) {
 		hsL = append(hsL, []hline{{"Sec-WebSocket-Protocol", p}})
 	case "empty":
 		hsL = append(hsL, []hline{{"Sec-WebSocket-Protocol", ""}})
+	case "b, c":
+		// a list: not the name of any one protocol, even if one of its tokens was requested
+		hsL = append(hsL, []hline{{"Sec-WebSocket-Protocol", "b, c"}})
+	case "b+c":
+		// two header lines; c is requested by no configuration
+		hsL = append(hsL, []hline{{"Sec-WebSocket-Protocol", "b"}, {"Sec-WebSocket-Protocol", "c"}})
+	case "c+b":
+		hsL = append(hsL, []hline{{"Sec-WebSocket-Protocol", "c"}, {"Sec-WebSocket-Protocol", "b"}})
 	}
 	switch x := r.V("extensions"); x {
 	case "absent":
@@ -351,6 +359,9 @@ func (r Resp) Judge(c DialCfg) ClientVerdict {
 		}
 	case "empty":
 		v.Open = true
+	case "b, c", "b+c", "c+b":
+		// the response names a subprotocol that was not requested
+		rej("protocol")
 	}
 	offered := map[string]bool{}
 	for _, n := range c.ExtNames() {
